@@ -365,6 +365,15 @@ def setConfig (cfg : Config) : M Unit := do
   if Gen.setConfigInvalid s.cfg cfg then throwE .invalidConfig
   else modS fun s => { s with cfg := cfg, sendCap := if s.cfg.mps != cfg.mps then cfg.mps else s.sendCap }
 
+/-- `members.apply_existing_if(update, cond)` followed, when a record was found, by `handle_apply_summary`
+    (with broadcasting): the unit in which membership and its notifications change together -/
+def applyExistingReport (u : Member) (cond : Member → Bool) : M (Option Summary) := do
+  match ← membersApplyExistingIf u cond with
+  | some sm => do
+    handleApplySummary E sm u true
+    pure (some sm)
+  | none => pure none
+
 /-- `probe_random_member`, first stage: the previous round's target, if it did not answer, becomes Suspect -/
 def probeSuspectFailed : M Unit := do
   let s ← getS
@@ -373,9 +382,8 @@ def probeSuspectFailed : M Unit := do
   match tf.1 with
   | some failed =>
     let asSuspect : Member := ⟨failed.id, failed.inc, .suspect⟩
-    match ← membersApplyExistingIf asSuspect (fun _ => true) with
+    match ← applyExistingReport E asSuspect (fun _ => true) with
     | some sm =>
-      handleApplySummary E sm asSuspect true
       if sm.activeNow then
         let s ← getS
         emit (.timer s.cfg.s2d (.s2d failed.id failed.inc s.token))
@@ -432,9 +440,8 @@ def handleTimer (t : Timer) : M Unit := do
   | .s2d m inc tok =>
     if s.token == tok then
       let asDown : Member := ⟨m, inc, .down⟩
-      match ← membersApplyExistingIf asDown (fun k => k.inc == inc) with
+      match ← applyExistingReport E asDown (fun k => k.inc == inc) with
       | some sm =>
-        handleApplySummary E sm asDown true
         adjustConnectionState E
         if sm.applied && s.cfg.notifyDown then sendMessage E m .turnUndead
       | none => pure ()
